@@ -18,7 +18,7 @@ Proved here (every theorem quantifies over EVERY tag; `TagBytes` only says that 
 * `isodep_exchange_safe`: one `IsoDepInitiator.exchange` against every card: response or
   `Type4TagCommandError`, at most `exchFrames` frames; `isodep_asfound_is_shared_model`: with the repairs
   switched off the model is the one of `Model/IsoDep.lean` (C12); `isodep_wtx_endless_counterexample`,
-  `isodep_ack_endless_counterexample`: what the unrepaired loops do.
+  `isodep_ack_endless_counterexample`, `isodep_chain_endless_counterexample`: what the unrepaired loops do.
 * `is_present_safe_t1/t2/t3/t3rr/t4`, `ops_safe`: presence checks and operation sequences per tag type.
 * `activate_safe`: activation never raises, at most 5 interactions, and sets the tag object up as the other
   theorems need it (`TagObjOk`).
@@ -206,5 +206,40 @@ theorem isodep_ack_endless_counterexample (F n f i : Nat) (req rty out : Bytes) 
     have := ih (i + 1) req { card := w.card + 1, script := [], trace := w.trace ++ [out] } rfl
     simp at this ⊢
     exact ⟨this.1, by omega⟩
+
+/-- the card that answers the n-th frame with a chained I-block carrying block number n mod 2 and one octet -/
+def chainTag : Tag := fun n => some [0x12 ||| (n % 2), 0]
+
+/-- FRAME level, UNREPAIRED code: the response phase acknowledges chained blocks as long as the card sets the
+chaining bit - every fuel `f` is used up while the response grows -/
+theorem isodep_chain_endless_counterexample (F n f : Nat) (data resp : Bytes) (a : Nat) (inf : Bytes)
+    (hd : data = a :: inf) (ha : a &&& 0x10 ≠ 0) (w : World Nat) (hw : w.script = []) :
+    (recvChain (oraclePeer chainTag) (F + 1) n f (w.card % 2) data resp w).2.2 = .error .outOfFuel ∧
+    (recvChain (oraclePeer chainTag) (F + 1) n f (w.card % 2) data resp w).1.card = w.card + f := by
+  induction f generalizing w data resp a inf with
+  | zero => simp [recvChain]
+  | succ f ih =>
+    subst hd
+    have hx : w.xchg (oraclePeer chainTag) [0xA2 ||| (w.card % 2)] =
+        ({ card := w.card + 1, script := [], trace := w.trace ++ [[0xA2 ||| (w.card % 2)]] }, .data [0x12 ||| (w.card % 2), 0]) := by
+      simp [World.xchg, nextFault, hw, oraclePeer, chainTag, legBack]
+    have hp : w.card % 2 = 0 ∨ w.card % 2 = 1 := by omega
+    have hnw : isWtx [0x12 ||| (w.card % 2), 0] = false := by
+      rcases hp with h | h <;> rw [h] <;> decide
+    have hbn : (0x12 ||| (w.card % 2)) &&& 0x01 = w.card % 2 := by
+      rcases hp with h | h <;> rw [h] <;> decide
+    have hch : (0x12 ||| (w.card % 2)) &&& 0x10 ≠ 0 := by
+      rcases hp with h | h <;> rw [h] <;> decide
+    have hnext : (w.card % 2 + 1) % 2 = (w.card + 1) % 2 := by omega
+    unfold recvChain
+    simp only [ha, if_false]
+    unfold blockLoop
+    simp only [xchgW, hx, hnw]
+    simp only [Bool.false_eq_true, if_false, reduceCtorEq, if_false, hbn, ne_eq, not_true_eq_false]
+    have := ih [0x12 ||| (w.card % 2), 0] (resp ++ [0]) (0x12 ||| (w.card % 2)) [0] rfl hch
+      { card := w.card + 1, script := [], trace := w.trace ++ [[0xA2 ||| (w.card % 2)]] } rfl
+    simp only at this
+    rw [hnext]
+    exact ⟨this.1, by have := this.2; omega⟩
 
 end NfcVerif.C08
